@@ -2,7 +2,7 @@
 # usage: tools/verify_seed.sh <ID> <k>
 # Confirms a sub-agent's change in its scratch worktree /tmp/wt/<ID>: patch applies, demo fails with it and passes
 # without it, the repository's pinned suite still passes with it. Copies it to /verif/seeded/<ID>-<k>/ with a log.
-id="$1"; k="$2"; wt=/tmp/wt/$id; src=/tmp/wt/$id-out; dst=/verif/seeded/$id-$k
+id="$1"; k="$2"; dk="${3:-$2}"; wt=/tmp/wt/$id; src=/tmp/wt/$id-out; dst=/verif/seeded/$id-$dk
 mkdir -p "$dst"; log="$dst/verify.log"; : > "$log"
 cd "$wt" || exit 2
 git checkout -q -- . ; git clean -fdq
@@ -14,4 +14,4 @@ rm -f "$wt/demo$k.py"
 /venv/bin/python /verif/tools/baseline.py "$wt" >> "$log" 2>&1; base_rc=$?
 git checkout -q -- . ; git clean -fdq
 cp "$src/patch$k.diff" "$dst/patch.diff"; cp "$src/demo$k.py" "$dst/demo.py"; cp "$src/notes$k.md" "$dst/notes.md" 2>/dev/null
-echo "$id-$k demo_clean_rc=$clean_rc demo_mutant_rc=$mut_rc baseline_rc=$base_rc" | tee -a "$log"
+echo "$id-$dk demo_clean_rc=$clean_rc demo_mutant_rc=$mut_rc baseline_rc=$base_rc" | tee -a "$log"
